@@ -29,8 +29,10 @@ func c01(tier string) []*explore.Scenario {
 	out = append(out, c01Direct(2, po, 1, true))
 	out = append(out, c01Direct(8, po, 1, false))
 	out = append(out, c01Direct(16, po, 0, false))
+	// many callers over an unbuffered transport (back-pressure through every queue of the path)
+	out = append(out, c01Direct(16, env.PipeOpts{Cap: 0}, 0, false), c01Direct(12, env.PipeOpts{Cap: 0, Serialize: true}, 1, false), c01Direct(24, env.PipeOpts{Cap: 1}, 0, false))
 	if tier == "thorough" {
-		out = append(out, c01Direct(64, po, 0, false), c01Direct(16, po, 1, false), c01Direct(3, po, 2, true))
+		out = append(out, c01Direct(64, po, 0, false), c01Direct(16, po, 1, false), c01Direct(3, po, 2, true), c01Direct(64, env.PipeOpts{Cap: 0}, 0, false), c01Direct(16, env.PipeOpts{Cap: 0}, 1, false))
 	}
 	// payloads above 1 KiB (the codec's pooled buffers) with calls in flight at once
 	for _, ser := range []bool{false, true} {
